@@ -273,3 +273,67 @@ func vh_C17_broker_history() {
 	// the query changed nothing
 	l.historyAll(b, "history after query")
 }
+
+// vh_C17_recreated_stream: a stream whose metadata TTL is shorter than its
+// history TTL is discarded by the meta sweep while its history deadline is
+// still pending; the channel is then published to again. The re-created
+// stream must expire after ITS history TTL (top offset and epoch kept), and
+// must not expire early because of the first stream's deadline.
+func vh_C17_recreated_stream() {
+	b, sink := vNewMemBroker(vC17MetaTTLSec*time.Second, vC17Chan)
+	t1 := []int{3, 10}[vChoice("ttl1", 2)]
+	m1 := []int{1, 5}[vChoice("meta1", 2)]
+	gap := []int{2, 6, 12}[vChoice("gap", 3)]
+	t2 := []int{3, 10}[vChoice("ttl2", 2)]
+	wait := []int{2, 4, 11}[vChoice("wait", 3)]
+	now := 0
+	// publish 1 with a per-publication metadata TTL
+	r1, err := b.Publish(vC17Chan, []byte{1}, PublishOptions{HistorySize: 2, HistoryTTL: time.Duration(t1) * time.Second, HistoryMetaTTL: time.Duration(m1) * time.Second})
+	vAssert(err == nil && r1.Offset == 1, "first publish stored at offset 1")
+	vAdvanceSec(gap)
+	now += gap
+	// publish 2 (default metadata TTL, 50 s)
+	r2, err := b.Publish(vC17Chan, []byte{2}, PublishOptions{HistorySize: 2, HistoryTTL: time.Duration(t2) * time.Second})
+	vAssert(err == nil, "second publish ok")
+	pub2At := now
+	sameStream := r2.Epoch == r1.Epoch
+	if sameStream {
+		vAssert(r2.Offset == 2, "same epoch continues the numbering")
+		vCover(true, "metadata-survived")
+	} else {
+		vAssert(gap >= m1, "epoch changed although the metadata TTL had not elapsed")
+		vAssert(r2.Offset == 1, "a fresh stream starts at offset 1")
+		vCover(gap >= t1, "recreated-after-first-history-deadline")
+	}
+	vAdvanceSec(wait)
+	now += wait
+	pubs, pos, err := b.History(vC17Chan, HistoryOptions{Filter: HistoryFilter{Limit: -1}})
+	vAssert(err == nil, "history ok")
+	vAssert(pos.Epoch == r2.Epoch && pos.Offset == r2.Offset, "top offset and epoch kept")
+	if now-pub2At >= t2 {
+		// Known finding C17-ttl-shortened-late: the channel's expiry-queue entry is
+		// pushed once and never re-prioritised, so a later publish whose deadline
+		// is EARLIER than a still-pending older deadline (same stream, or a stream
+		// re-created after its metadata was discarded) expires only at the older one.
+		vKnown("C17-ttl-shortened-late", pub2At+t2 < t1 && now < t1)
+		vAssert(len(pubs) == 0, "history expired after its own TTL")
+	} else {
+		// not yet expired: the second publication must still be there (the first
+		// one too if it is in the same stream and was stored less than ttl2 ago —
+		// the history deadline is per stream and was re-armed by publish 2)
+		want := 1
+		if sameStream {
+			want = 2
+			// Known finding C17-ttl-shortened-late does not apply here: a LONGER
+			// or equal second TTL only moves the deadline later; a shorter one is
+			// excluded from this clause.
+			if t2 < t1 && now < t1 {
+				want = -1
+			}
+		}
+		if want >= 0 {
+			vAssert(len(pubs) == want, "unexpired history still retained")
+		}
+	}
+	_ = sink
+}
